@@ -18,6 +18,15 @@ static const double* nv_upper_bound_f64(const double* begin, const double* end, 
   if (0 <= nv_g && nv_g < n) __CPROVER_assume((nv_g < idx) ? !(val < begin[nv_g]) : (val < begin[nv_g]));
   return begin + idx;
 }
+/* assumed contract of std::lower_bound(first, last, val) on a range partitioned w.r.t. `elem < val`: the partition point */
+static const double* nv_lower_bound_f64(const double* begin, const double* end, double val)
+{
+  int64_t n = end - begin, idx = nv_nondet_int64_t();
+  __CPROVER_assume(0 <= idx && idx <= n);
+  if (0 <= nv_g && nv_g < n) nv_w_thr = begin[nv_g];
+  if (0 <= nv_g && nv_g < n) __CPROVER_assume((nv_g < idx) ? (begin[nv_g] < val) : !(begin[nv_g] < val));
+  return begin + idx;
+}
 /* histogram_t::bins() is m_bin_counts.size(); histogram invariant (established by update): counts.size == thresholds.size + 1 */
 static int64_t nv_hist_bins(const struct nv_histogram* h) { return h->m_bin_counts.n; }
 
